@@ -242,6 +242,22 @@ pub fn gzip(path_in: &Path, path_out: &Path) {
     e.finish().expect("gz finish");
 }
 
+/// gzip in `members` concatenated members (a valid gzip file: `cat a.gz b.gz`, bgzip, merged lanes)
+pub fn gzip_members(path_in: &Path, path_out: &Path, members: usize) {
+    use flate2::write::GzEncoder;
+    use std::io::Write;
+    let data = std::fs::read(path_in).expect("read");
+    let mut out: Vec<u8> = Vec::new();
+    let m = members.max(1);
+    for i in 0..m {
+        let (a, b) = (data.len() * i / m, data.len() * (i + 1) / m);
+        let mut e = GzEncoder::new(Vec::new(), flate2::Compression::default());
+        e.write_all(&data[a..b]).expect("gz write");
+        out.extend(e.finish().expect("gz finish"));
+    }
+    std::fs::write(path_out, out).expect("write gz");
+}
+
 pub fn p(path: &Path) -> String {
     path.to_string_lossy().to_string()
 }
